@@ -446,6 +446,20 @@ XalanDOMString::insert(
 
         assert(length() == theCount);
     }
+    else if (theString >= c_str() && theString < c_str() + m_size)
+    {
+        // The characters are part of this string, which std::basic_string
+        // allows.  XalanVector::insert() moves the tail before it copies
+        // from the source, so insert a copy.
+        const XalanDOMCharVectorType    theCopy(
+                                            theString,
+                                            theString + theCount,
+                                            getMemoryManager());
+
+        m_data.insert(getIteratorForPosition(thePosition), theCopy.begin(), theCopy.end());
+
+        m_size += theCount;
+    }
     else
     {
         m_data.insert(getIteratorForPosition(thePosition), theString, theString + theCount);
